@@ -76,7 +76,18 @@ def run(rng, tier, res=None):
                   "knn": lambda: KNNSupervisedOPF(max_k=2, distance=metric),
                   "unsup": lambda: UnsupervisedOPF(min_k=1, max_k=3, distance=metric)}[kind]
             o = mk()
-            if pre:
+            dfile = None
+            if pre and case % 2 == 0:
+                # constructed from a distance FILE, then given another matrix through the public setter; the file is
+                # regenerated later (before the model is loaded again): what was saved is what must come back
+                dfile = os.path.join(tmp, f"dist{case % 3}.csv")
+                np.savetxt(dfile, np.array([[rng.uniform(0.5, 9.0) for _ in range(len(X))] for _ in range(len(X))]), delimiter=",")
+                kwf = {"distance": metric, "pre_computed_distance": dfile}
+                o = {"sup": lambda: SupervisedOPF(**kwf), "semi": lambda: SemiSupervisedOPF(**kwf),
+                     "unsup": lambda: UnsupervisedOPF(min_k=1, max_k=3, **kwf)}[kind]()
+                o.pre_distances = M
+                res.hit("constructed_from_file_then_setter")
+            elif pre:
                 o.pre_computed_distance = True; o.pre_distances = M
             It, Iu, Iq = np.arange(n), np.arange(n, n + 2), np.arange(n + 2, n + 6)
             if kind == "sup":
@@ -88,6 +99,13 @@ def run(rng, tier, res=None):
             else:
                 o.fit(Xt, Y, I_train=It if pre else None)
                 o.propagate_labels(); pq = lambda m: m.predict(Q, I_val=(Iq if pre else None))  # noqa
+            if kind in ("knn", "unsup") and case % 3 == 2:
+                # the fitted subgraph used through its public methods before saving (a larger k explored by hand)
+                try:
+                    o.subgraph.create_arcs(min(n - 1, 4), dist.DISTANCES[metric], False, None)
+                    res.hit("arcs_recreated_before_save")
+                except Exception:
+                    pass
             p0 = pq(o)
             s0 = model_state(o)
             # a path that is written again and again / names that differ only after their last dot
@@ -101,6 +119,8 @@ def run(rng, tier, res=None):
             s0b = model_state(o)
             s1 = model_state(o)
             p1 = pq(o)
+            if dfile is not None:
+                np.savetxt(dfile, np.array([[rng.uniform(0.5, 9.0) for _ in range(len(X))] for _ in range(len(X))]), delimiter=",")
             fresh = {"sup": SupervisedOPF, "semi": SemiSupervisedOPF, "knn": KNNSupervisedOPF, "unsup": UnsupervisedOPF}[kind]()
             fresh.load(path)
             s2 = model_state(fresh)
@@ -133,6 +153,9 @@ def run(rng, tier, res=None):
                     if fresh3.distance_fn is not dist.DISTANCES[metric]:
                         res.violations.append({"property": "C06", "what": f"after load the model reports distance={fresh3.distance!r} but its "
                                                f"distance_fn is not DISTANCES[{metric!r}] (the identifier does not resolve to its function)", "replay": meta})
+                    if repr(p3) != repr(p0) and kind in ("sup", "semi"):
+                        res.violations.append({"property": "C03", "what": f"{kind}/{metric}: the re-loaded classifier predicts {p3}, the saved one {p0}: "
+                                               f"prediction does not minimise over the model's own metric", "replay": meta})
                     if repr(p3) != repr(p0) and kind in ("knn", "unsup"):
                         res.violations.append({"property": "C14", "what": f"{kind}/{metric}: the re-loaded model predicts {p3}, the saved one {p0}: "
                                                f"the scan does not use the model's metric", "replay": meta})
